@@ -448,12 +448,14 @@ PROPS["C16"] = {
     "nontrivial": lambda case, impl: impl.startswith("dom=1") and ("[" in case.split(" | ")[3] or "{" in case.split(" | ")[3]),
     "spec_matches": c16_spec_matches,
     "known": c16_known,
-    "rule": "68 root types built from ~30 #[derive(Serialize, Deserialize)] types (unit/newtype/tuple/plain structs, enums with unit, "
+    "rule": "71 root types built from ~30 #[derive(Serialize, Deserialize)] types (unit/newtype/tuple/plain structs, enums with unit, "
             "newtype, tuple and struct variants, recursion through Box/Vec/Option, renamed fields and variants incl. empty and "
             "non-BMP names) and std types (bool, i8..u64, f32, f64, char, String, (), Option, Vec, tuples of 1-4, BTreeMap keyed by "
-            "String, every integer type, char and a unit-variant enum); 900 (quick) / 8000 (thorough) seeded data per root: integers "
+            "String, every integer type, char and a unit-variant enum; HashMap with a fixed hasher keyed by String, u8, char); "
+            "900 (quick) / 8000 (thorough) seeded data per root: integers "
             "at their bounds and random, floats from special values (zeros, powers of ten around lexical's notation breaks, 2^24, "
-            "2^53, 2^63, 2^64, extremes, subnormals), random bit patterns, integral and short-decimal values, non-finite; strings "
+            "2^53, 2^63, 2^64, extremes, subnormals, the double 0x3ab5c87fb0000000 that is an exact binary32 midpoint), random bit "
+            "patterns, integral and short-decimal values, non-finite; strings "
             "from controls/quotes/non-BMP/noncharacters, integer look-alikes, near-copies of the private number token; empty and "
             "long sequences and maps; nesting depth 1-4. The sd term fed to the model is RECORDED from the type's own Serialize "
             "impl; the type descriptor comes from the same macro invocation that defines the Rust type. Observable: dom (finite "
@@ -463,13 +465,23 @@ PROPS["C16"] = {
             "returned through Value::from_serde_json, equality with the original; every third case additionally hands from_value::<T> "
             "the serialized value with one random edit (array element added/removed, entry removed/added/renamed, object turned into "
             "an array, single-entry object unwrapped or nulled, string wrapped as {s:null}, numbers replaced by boundary values, "
-            "kinds swapped) and compares the re-recorded result or the rejection (dx). hyp: the model checks the theorems' float "
-            "premises on every spelling recorded from the dependencies. Spec column: what the property demands on its "
-            "domain (rt, sh, sh32, vrt all 1). Non-trivial: in-domain data with a compound constructor. distinct = distinct case lines.",
+            "kinds swapped, a key renamed -- possibly onto another key or onto a respelling of the same integer) and compares the "
+            "re-recorded result or the rejection (dx); every sixth case (when the serialized value has a non-empty object) hands "
+            "from_value::<T> the serialized value with REPEATED KEYS in one of its objects (same key after / before the original, "
+            "with a well- or ill-typed value, three occurrences, every entry twice, integer keys respelled +k / 0k / -0k, a repeated "
+            "undeclared key): objects of map targets (BTreeMap and HashMap: last value wins, every entry still deserialized), of "
+            "struct targets and struct variants (duplicate field), single-entry enum objects (quick tier: ~4.2k such cases, ~1.6k "
+            "accepted). hyp: the model checks the theorems' float premises on every spelling recorded from the dependencies (incl. "
+            "sgl(spelling) = the f32, the premise of C16_shape32). Spec column: what the property demands on its domain (rt, sh, "
+            "vrt all 1; sh32 = 1 where additionally every f64 leaf agrees with its spelling at binary32, L64=1), sh32 being there the "
+            "SPECIFICATION's shape32 = shape32_sj while the model column carries the model's shape_of true = shape_of_sj true, so both "
+            "readings of numbers are compared on every case. Non-trivial: in-domain data with a compound constructor. "
+            "distinct = distinct case lines.",
     "trusted": [
         "MODELLED CONTRACT (Model/Serde.v, comment above [de]): which deserialize_* method each std / serde-derive generated "
         "Deserialize impl calls and which visit_* it accepts (integers: visit_u64/visit_i64 with range checks; floats accept "
-        "integers; char: one-char string; Option: deserialize_option; derived struct: map or seq, unknown keys skipped, repeated "
+        "integers; char: one-char string; Option: deserialize_option; BTreeMap/HashMap: next_entry until None, each pair "
+        "inserted, so the last value of equal keys is kept; derived struct: map or seq, unknown keys skipped, repeated "
         "field an error, absent Option field None; derived enum: string or single-entry map; tuple variant visitors accept "
         "visit_seq only; f32 accepts visit_f32); validated by this run on every root type, not verified",
         "serde_json::to_value's shape (ser_sj: BTreeMap objects ordered by key, i64/u64 as NegInt/PosInt, f32 widened to f64, "
@@ -488,7 +500,8 @@ PROPS["C16"] = {
     "assumptions": [
         "domain: has_type (map keys pairwise distinct as rendered, Some(x) only for x not rendered as null, struct fields as declared), "
         "finite floats, outside the known class K1 (first key = the private number token)",
-        "a JSON object with a repeated key deserialized into a map type is not modelled (later entry would overwrite); to_value never produces one",
+        "the binary32 shape clause (C16_shape32) excludes data with an f64 leaf that a binary32 rounding boundary separates from "
+        "its printed spelling (f64_leaves_agree32; witness C16_shape32_f64_midpoint): comparing at binary32 precision is coarser than such a leaf",
     ],
 }
 
@@ -955,10 +968,22 @@ _m("C16", "Proved for EVERY type environment, type descriptor and datum of the s
           "succeeds and from_value of the result returns the datum with -0.0 read back as +0.0 and nothing else changed, for all "
           "sufficiently large fuel; (C16_nonfinite) non-finite f32/f64 serialize to null; (C16_shape) for data without f32 leaves "
           "the value has the same JSON shape as the model of serde_json::to_value: structure, strings, booleans exact, object "
-          "members up to order, numbers by value (for f32 leaves json-syntax prints the shortest f32 digits while serde_json widens "
-          "to f64: equality at binary32 precision is checked by the run only -- the partial part); (C16_via_json) converting the "
+          "members up to order, numbers by value; (C16_shape32, C16_shape32_f32_only, C16_shape32_model) for data WITH f32 leaves "
+          "(json-syntax prints the shortest f32 digits, serde_json widens the f32 to f64) the two values have the same shape at "
+          "binary32 precision -- every number replaced by the binary32 nearest to the real it denotes (Spec/SerdeShape32.v: sgl of a "
+          "spelling, the `as f32` cast of a serde_json integer/double) -- under the premises that an f32's printed spelling reads "
+          "back at binary32 as that f32 and that no binary32 rounding boundary separates an f64 leaf from its printed spelling "
+          "(necessary: C16_shape32_f64_midpoint; absent for data whose floats are all f32), the key lemma being that widening is "
+          "exact (C16_widening_exact: f32_of_f64 (f64_of_f32 b) = b) and that the spelling of an integer reads at binary32 as its "
+          "`as f32` cast (C16_sgl_of_integer); non-vacuity C16_shape32_example (0.1f32: 0.1 vs 0.10000000149011612); "
+          "(C16_via_json) converting the "
           "serde_json rendering into a Value and deserializing it returns the datum exactly, sign of zero included, maps in key "
-          "order, for EVERY well-typed finite datum. Number spellings are read as visit_number / deserialize_f32 do: u64, else i64, "
+          "order, for EVERY well-typed finite datum; (C16_map_last_wins, C16_map_keys_distinct, C16_struct_dup_field, "
+          "C16_struct_variant_dup_field, C16_enum_repeated_variant_key, C16_dup_examples) a JSON object with REPEATED keys handed to "
+          "from_value: into a map type every entry is deserialized and the last value of a key is kept, i.e. the result is the "
+          "result on the object with the earlier occurrences removed and its keys are pairwise different; into a struct or a "
+          "struct variant a repeated declared field is an error; an enum object must have exactly one entry. "
+          "Number spellings are read as visit_number / deserialize_f32 do: u64, else i64, "
           "else the correctly rounded f64 (f32) of the spelling -- no parsing dependency is left in the statements. One genuine "
           "finding remains, with a witness proved in Coq: C16_K1_refuted (a map whose first key is `$serde_json::private::Number` "
           "becomes a number or an error; inherent to the arbitrary-precision hand-shake). Two earlier findings are repaired in "
@@ -967,13 +992,15 @@ _m("C16", "Proved for EVERY type environment, type descriptor and datum of the s
           "f64). The call protocol of the std / derive-generated Deserialize impls, serde_json::to_value's shape, "
           "Value::from_serde_json and the float PRINTERS are MODELLED CONTRACTS (transcriptions / section variables with explicit "
           "premises) validated by the run: the run feeds the model the spellings the printers actually produced and checks every "
-          "premise on them (hyp=1), and also hands from_value 20k ill-typed edits of serialized values.",
+          "premise on them (hyp=1), and also hands from_value 20k ill-typed edits of serialized values and 4k values whose objects "
+          "have repeated keys.",
    "The structural theorems are axiom-free; the theorems about the binary32 reference (C16_nearest_single_correct: sgl is the IEEE-754 "
    "round-to-nearest-even binary32 of the exact decimal; C16_sgl_spelling; C16_f32_printer_round_trips: the reference shortest-digits "
    "printer reads back to the same bit pattern for every finite f32; C16_f32_shortest: its digits are the fewest of ANY decimal that rounds to "
-   "the binary32 (at most 9), closest among those, larger digit string on a tie; C16_f32_printer_digits) depend on Flocq's theorems, i.e. on the four standard-library axioms. "
+   "the binary32 (at most 9), closest among those, larger digit string on a tie; C16_f32_printer_digits) and the binary32 shape theorems "
+   "(C16_widening_exact, C16_shape32*, C16_sgl_of_integer) depend on Flocq's theorems, i.e. on the four standard-library axioms. "
    "Floats are bit patterns; the printers enter the theorems as explicit "
    "premises (the spelling of a finite float reads back, correctly rounded, as that float; serde_json floats are non-integer-spelled), "
    "each re-checked by the run on every recorded spelling and on samples inside Coq.",
    "Coq proof (nested induction on the datum, generalised over type and fuel; sorted-insertion lemmas for the serde_json side) + "
-   "correspondence on 68 root types with a recording serializer, recorded float spellings and ill-typed inputs")
+   "correspondence on 71 root types with a recording serializer, recorded float spellings, ill-typed inputs and repeated-key objects")
